@@ -132,6 +132,7 @@ func run(c *vf.Ctx) {
 	// (thorough) object moves between two slots inside ONE message, from every start state.
 	var hs []*hist.History
 	hs = append(hs, hist.SlotSeqHistories(2, 6)...)
+	hs = append(hs, hist.SlotAdoptHistories(3)...)
 	if !c.Quick() {
 		hs = append(hs, hist.SlotSeqHistories(3, 12)...)
 	}
